@@ -1127,6 +1127,20 @@ impl TransactionBuilder {
         Ok(())
     }
 
+    /// The limits every output of the body has to meet (the tests of `add_output`): value size and minimum ADA
+    fn check_output_limits(&self, output: &TransactionOutput) -> Result<(), JsError> {
+        self.check_max_value_size(&output.amount)?;
+        let min_ada = min_ada_for_output(&output, &self.config.utxo_cost())?;
+        if output.amount().coin() < min_ada {
+            return Err(JsError::from_str(&format!(
+                "Value {} less than the minimum UTXO value {}",
+                output.amount().coin(),
+                min_ada
+            )));
+        }
+        Ok(())
+    }
+
     /// Add explicit output via a TransactionOutput object
     pub fn add_output(&mut self, output: &TransactionOutput) -> Result<(), JsError> {
         let value_size = output.amount.to_bytes().len();
@@ -2175,6 +2189,9 @@ impl TransactionBuilder {
                             .unwrap()
                             .amount
                             .checked_add(&change_left)?;
+                        // the coin of that output grew after it was admitted: its encoding can be wider now, which
+                        // enlarges both the value and the minimum ADA, so the limits of add_output are checked again
+                        self.check_output_limits(self.outputs.0.last().unwrap())?;
                     }
                     Ok(true)
                 } else {
